@@ -365,6 +365,15 @@ def transfer_targets(text):
     return sorted(re.findall(r"\\path\[transfer branch=[^\]]*\]\s*\([^)]*\)\s*to\[[^\]]*\]\s*\(\s*([^)]*?)\s*\)", text))
 
 
+def point_value(s):
+    """`x,y` as written in the TikZ code -> the point it denotes at MAX_DIGITS places (the spelling of a number --
+    `184.75`, `184.7500`, `184` -- is not part of the property)."""
+    try:
+        return repr(tuple(round(float(v), 4) + 0.0 for v in s.split(",")))
+    except ValueError:
+        return s
+
+
 # --------------------------------------------------------------------------
 # the property, evaluated directly
 
@@ -435,7 +444,7 @@ def spec_check(case, out, lay, text):
         got = {k: cnt[k] for k in want}
         if got != want:
             return f"TikZ statements {got} differ from the events {want}"
-        if transfer_targets(text) != sorted(targets):
+        if sorted(map(point_value, transfer_targets(text))) != sorted(map(point_value, targets)):
             return f"transfer arrows end at {transfer_targets(text)}, children anchors are {sorted(targets)}"
     return None
 
